@@ -471,6 +471,73 @@ func c10fault(nSent, ackH, failAt int, short bool) func() {
 	}
 }
 
+// c10resumed: stanzas sent, an acknowledgement for the first k of them, more stanzas sent, the connection
+// lost, the session resumed with <resumed h=j/> (j >= k: the server's count never goes back). Whatever the
+// client makes of that count, every stanza beyond max(k, j) is unacknowledged and must still be held, in order.
+func c10resumed(n1, k, n2, j int) func() {
+	return func() {
+		s := newSess(sessOpts{sm: true, smResume: true, resumedH: func() int { return j }})
+		if s.cl == nil {
+			return
+		}
+		if err := s.cl.Connect(); err != nil {
+			vrt.Fail("C10|harness|connect", "%v", err)
+			return
+		}
+		vrt.WaitIdle()
+		sc := s.conn(0)
+		sc.drainNew()
+		sc.pending = nil
+		var sent []string // sent[0] is the initial presence (position 1 on the wire)
+		sent = append(sent, "<presence/>")
+		send := func(tag string, n int) {
+			for i := 0; i < n; i++ {
+				m := stanza.Message{Attrs: stanza.Attrs{To: "peer@example.org", Id: fmt.Sprintf("%s%d", tag, i), Type: "chat"}, Body: tag}
+				sent = append(sent, c10wire(m))
+				if err := s.cl.Send(m); err != nil {
+					vrt.Fail("C10|send-error", "%v", err)
+				}
+			}
+			vrt.WaitIdle()
+		}
+		send("a", n1)
+		// the server has handled exactly the first k stanzas: nothing is left to send again
+		sc.send(fmt.Sprintf("<a xmlns='urn:xmpp:sm:3' h='%d'/>", k))
+		vrt.WaitIdle()
+		if k < 1+n1 {
+			// what the acknowledgement did not cover was sent again (numbered again by the client): from the server's
+			// point of view these are further stanzas, so this history keeps to acknowledgements that cover everything
+			vrt.Fail("C10|harness|resumed-history", "k=%d must cover the %d stanzas sent", k, 1+n1)
+			return
+		}
+		send("b", n2)
+		sc.close()
+		vrt.WaitIdle()
+		if err := s.cl.Connect(); err != nil {
+			vrt.Fail("C10|harness|reconnect", "%v", err)
+			return
+		}
+		vrt.WaitIdle()
+		if len(s.recs) < 2 || !s.recs[1].Resumed {
+			vrt.Fail("C10|harness|not-resumed", "the second connection did not resume the session")
+			return
+		}
+		hist := fmt.Sprintf("presence + %d stanzas sent, <a h=%d>, %d more sent, connection lost, <resumed h=%d>", n1, k, n2, j)
+		must := sent[j:]
+		q := c10queue(s.cl)
+		vrt.Log("held %q", q)
+		pos := 0
+		for _, h := range q {
+			if pos < len(must) && h == must[pos] {
+				pos++
+			}
+		}
+		if pos != len(must) {
+			vrt.Fail("C10|unacked-stanza-dropped-at-resumption", "history [%s]: the held queue %q no longer holds, in order, the stanzas beyond the server's count %q", hist, q, must)
+		}
+	}
+}
+
 func c10wire(p interface{}) string {
 	b, err := xml.Marshal(p)
 	if err != nil {
@@ -523,6 +590,15 @@ func TestVerifC10(t *testing.T) {
 		for _, h := range []int{0, 1} {
 			scs = append(scs, hx.Scenario{Name: fmt.Sprintf("conc/%v/h=%d", progs, h), Opt: vrt.Options{Bound: cb, Horizon: 50000, TouchOn: []string{"Uslice"}},
 				Body: c10conc(progs, h), Verdict: c10verdict})
+		}
+	}
+	for _, n1 := range []int{1, 2} {
+		for _, n2 := range []int{1, 2, 3} {
+			k := 1 + n1
+			for j := k; j <= k+n2; j++ {
+				scs = append(scs, hx.Scenario{Name: fmt.Sprintf("resumed-h/sent=%d/a=%d/sent=%d/resumed=%d", n1, k, n2, j), Opt: vrt.Options{Bound: 0},
+					Body: c10resumed(n1, k, n2, j), Verdict: c10verdict})
+			}
 		}
 	}
 	for _, n := range []int{2, 3, 4} {
